@@ -23,6 +23,8 @@ DESC = {
  'C19': ('model_checking', 'MC_Gray is exhaustive for k = 1..16 and all 2^k entries (distinct values, one-bit steps, inc = index of the bit, table built by successive additions = sum of the rows selected by x); the code book dumped from the library and mzd_make_table outputs are compared with the specification by TLC; parity64, bit reversal, spread/shrink on complete single-bit bases plus random words; all 65 mask lengths x 64 offsets', 'exhaustive TLC model check (finite domain) + TLC validation of tables dumped from the real library'),
  'C20': ('fault_enumeration', 'for 42 scenarios (every operation family, each regime) and EVERY allocation request i of the scenario the i-th request fails in a fresh child; AllocFault.tla allows one continuation (controlled abort through m4ri_die); TLC checks that every position was injected and every fate is the allowed one', 'fault enumeration over every allocation request of every scenario, judged by TLC against AllocFault.tla'),
  'C13': ('model_checking', 'row/column operations, bit ranges and the five permutation applications judged by LAPACK-swap semantics of the specification; inverse laws and permutation-matrix laws model-checked for all permutations of length <= 4 (MC_GF2)', TV),
+ 'C15': ('model_checking', 'Threads.tla classifies every call by the globals it touches; NoRace holds for the thread-safe constants and is violated for the cached ones (witness). Binding: 2/4/8 (thorough: up to 16) threads run the seeded op lists of all sequential families on private matrices in the ThreadSanitizer build of the thread-safe configuration; zero race reports are required (a report must repeat on a re-run), every thread\'s trace is validated against the sequential specification, and the same harness on the cached build must show races (vacuity witness)', 'TLC model check of the interleaving model + TSan-observed concurrent executions + TLC validation of every thread\'s trace'),
+ 'C16': ('model_checking', 'OMP.tla: all interleavings of the four section tasks (read/write micro steps) and of the static-chunk row loop with private temporaries for T = 1..3 (thorough: 4) threads end in the sequential result; witnesses with a shared quadrant / shared temporary violate it. Binding: mp front ends, M4RM and elimination on > 512 rows for OMP_NUM_THREADS in {1,2,3,4,8} (thorough: up to 16) with nesting enabled; every trace validated by TLC and byte-identical to the sequential build\'s trace', 'TLC model check of the OpenMP constructs + TLC trace validation per thread count + byte-wise comparison with the sequential build'),
  'C17': ('model_checking', 'equal/cmp/is_zero/find_pivot (relational)/first_zero_row/read-after-write on one-bit-different pairs at every position class, owned and (through C09) windowed', TV),
 }
 checks = []
